@@ -474,6 +474,33 @@ def _always_leaves(stmts):
     return False
 
 
+def as_expression(stmts):
+    """the value a side-effect-free, loop-free function body returns, as one expression: local bindings are substituted (each is an
+    expression of the parameters), `if c: return A` followed by REST becomes `A if c else <REST>`.  None when the body has any other shape
+    (a loop, a call statement, a raise, a fall-through without return)."""
+    def rec(ss, env):
+        ss = [x for x in ss if not (isinstance(x, ast.Expr) and isinstance(x.value, ast.Constant)) and not isinstance(x, ast.Pass)]
+        if not ss:
+            return None
+        s0, rest = ss[0], ss[1:]
+        sub = lambda e: _Rename({}, env).visit(copy.deepcopy(e))
+        if isinstance(s0, ast.Return):
+            return sub(s0.value) if s0.value is not None else ast.Constant(value=None)
+        if isinstance(s0, ast.Assign) and len(s0.targets) == 1 and isinstance(s0.targets[0], ast.Name):
+            return rec(rest, dict(env, **{s0.targets[0].id: sub(s0.value)}))
+        if isinstance(s0, ast.If):
+            a = rec(s0.body + ([] if _always_leaves(s0.body) else rest), dict(env))
+            b = rec((s0.orelse + ([] if _always_leaves(s0.orelse) else rest)) if s0.orelse else rest, dict(env))
+            if a is None or b is None:
+                return None
+            return ast.IfExp(test=sub(s0.test), body=a, orelse=b)
+        return None
+    e = rec(list(stmts), {})
+    if e is not None:
+        e = ast.fix_missing_locations(ast.Expression(body=e)).body
+    return e
+
+
 def guard_form(fn):
     """`if c: A else: B` with A leaving the block on every path (return / raise / continue / break) -> `if c: A` followed by B: the
     guard-clause spelling is the canonical one (an inlined helper or an elif ladder of returns reads like a sequence of guards)."""
@@ -821,6 +848,56 @@ def materialise_generators(ix, f, fn, keep):
     return _map_blocks(fn, fblock)
 
 
+def expand_maps(ix, f, fn, keep):
+    """`T = [H(x) for x in S]` / `T = {k: H(v) for k, v in S}` whose element calls a helper of the package that the rules do not know by name
+    (so that it has to be read where it is used) become the explicit loop - `_c = []; for x in S: _c.append(H(x)); T = _c` - which the statement
+    inliner can expand per element; `np.vectorize(H, otypes=[object])(A)` becomes the element loop over np.ndindex(A.shape).  Elements,
+    order and the moment T is bound are unchanged (T is bound after the whole collection has been built, as by the comprehension)."""
+    def helper_call(e):
+        return any(isinstance(c, ast.Call) and _resolve_helper(ix, f, c, keep) is not None for c in ast.walk(e))
+
+    def fblock(stmts):
+        out = []
+        for s in stmts:
+            v = s.value if isinstance(s, ast.Assign) and len(s.targets) == 1 else None
+            if isinstance(v, (ast.ListComp, ast.DictComp)) and len(v.generators) == 1 and not v.generators[0].is_async and helper_call(v.elt if isinstance(v, ast.ListComp) else v.value):
+                g = v.generators[0]
+                _TMP[0] += 1
+                acc = "_c%d" % _TMP[0]
+                if isinstance(v, ast.ListComp):
+                    init = ast.List(elts=[], ctx=ast.Load())
+                    put = ast.Expr(value=ast.Call(func=ast.Attribute(value=ast.Name(id=acc, ctx=ast.Load()), attr="append", ctx=ast.Load()), args=[v.elt], keywords=[]))
+                else:
+                    init = ast.Dict(keys=[], values=[])
+                    put = ast.Assign(targets=[ast.Subscript(value=ast.Name(id=acc, ctx=ast.Load()), slice=v.key, ctx=ast.Store())], value=v.value)
+                body = [ast.copy_location(put, s)]
+                for c in reversed(g.ifs):
+                    body = [ast.copy_location(ast.If(test=c, body=body, orelse=[]), s)]
+                out.append(ast.copy_location(ast.Assign(targets=[ast.Name(id=acc, ctx=ast.Store())], value=init), s))
+                out.append(ast.copy_location(ast.For(target=g.target, iter=g.iter, body=body, orelse=[]), s))
+                s.value = ast.Name(id=acc, ctx=ast.Load())
+                out.append(s)
+                continue
+            # np.vectorize(H, otypes=[object])(A)
+            if isinstance(v, ast.Call) and isinstance(v.func, ast.Call) and u(v.func.func) in ("np.vectorize", "numpy.vectorize") and len(v.args) == 1 and not v.keywords \
+                    and isinstance(v.args[0], (ast.Name, ast.Attribute, ast.Subscript)) and len(v.func.args) == 1 and isinstance(v.func.args[0], (ast.Name, ast.Attribute)) \
+                    and len(v.func.keywords) == 1 and v.func.keywords[0].arg == "otypes" and " ".join(u(v.func.keywords[0].value).split()) in ("[object]", "(object,)", "'O'", "[np.object_]"):
+                _TMP[0] += 1
+                acc, idx = "_c%d" % _TMP[0], "_i%d" % _TMP[0]
+                A = v.args[0]
+                out.append(ast.copy_location(ast.Assign(targets=[ast.Name(id=acc, ctx=ast.Store())], value=ast.parse("np.empty(%s.shape, dtype=object)" % u(A), mode="eval").body), s))
+                elem = ast.Subscript(value=copy.deepcopy(A), slice=ast.Name(id=idx, ctx=ast.Load()), ctx=ast.Load())
+                put = ast.Assign(targets=[ast.Subscript(value=ast.Name(id=acc, ctx=ast.Load()), slice=ast.Name(id=idx, ctx=ast.Load()), ctx=ast.Store())],
+                                 value=ast.Call(func=v.func.args[0], args=[elem], keywords=[]))
+                out.append(ast.copy_location(ast.For(target=ast.Name(id=idx, ctx=ast.Store()), iter=ast.parse("np.ndindex(%s.shape)" % u(A), mode="eval").body, body=[ast.copy_location(put, s)], orelse=[]), s))
+                s.value = ast.Name(id=acc, ctx=ast.Load())
+                out.append(s)
+                continue
+            out.append(s)
+        return out
+    return _map_blocks(fn, fblock)
+
+
 def fold_constants(fn, consts, single):
     strconsts = {}
     local = _stored_names(fn)
@@ -864,12 +941,37 @@ def fold_stdlib(ix, f, fn, consts, single):
         return (isinstance(func, ast.Attribute) and isinstance(func.value, ast.Name) and func.value.id in fmods and func.attr == "partial") \
             or (isinstance(func, ast.Name) and func.id in partials and func.id not in local)
 
+    # a local bound once, at the top level of the function, to a partial whose bound arguments are names not rebound afterwards
+    local_partials = {}
+    order = {id(n): i for i, n in enumerate(ast.walk(fn))}
+    for st_ in fn.body:
+        if isinstance(st_, ast.Assign) and len(st_.targets) == 1 and isinstance(st_.targets[0], ast.Name) and isinstance(st_.value, ast.Call) and is_partial(st_.value.func) \
+                and st_.value.args and all(isinstance(x, (ast.Constant, ast.Name, ast.Attribute)) for x in list(st_.value.args) + [k.value for k in st_.value.keywords]) \
+                and all(k.arg is not None for k in st_.value.keywords):
+            nm = st_.targets[0].id
+            stores = [n for n in ast.walk(fn) if isinstance(n, ast.Name) and n.id == nm and isinstance(n.ctx, (ast.Store, ast.Del))]
+            bound = {x.id for a_ in list(st_.value.args) + [k.value for k in st_.value.keywords] for x in ast.walk(a_) if isinstance(x, ast.Name)} - mods - fmods
+            after = set()
+            seen_stmt = False
+            for s2 in fn.body:
+                if s2 is st_:
+                    seen_stmt = True
+                    continue
+                if seen_stmt:
+                    after |= _stored_names(s2)
+            if len(stores) == 1 and not (bound & after):
+                local_partials[nm] = st_.value
+
     class F(ast.NodeTransformer):
         def visit_Call(self, node):
+            if isinstance(node.func, ast.Name) and node.func.id in local_partials:
+                node.func = copy.deepcopy(local_partials[node.func.id])
             # NAME(...) with NAME a module-level partial / lambda
             if isinstance(node.func, ast.Name) and node.func.id in single and node.func.id not in local and node.func.id in consts:
                 v = consts[node.func.id]
-                if isinstance(v, ast.Lambda) or (isinstance(v, ast.Call) and is_partial(v.func)):
+                # (arguments bound by a partial are evaluated once: only constants and names may be moved to the call site)
+                if (isinstance(v, ast.Lambda) and not v.args.defaults and not v.args.kw_defaults) or (isinstance(v, ast.Call) and is_partial(v.func) and all(
+                        isinstance(x, (ast.Constant, ast.Name, ast.Attribute)) for x in list(v.args) + [k.value for k in v.keywords])):
                     node.func = copy.deepcopy(v)
             self.generic_visit(node)
             plain = not node.keywords and not any(isinstance(a_, ast.Starred) for a_ in node.args)
@@ -1596,6 +1698,7 @@ def normal_form(ix, f, keep):
         lambda t: fold_stdlib(ix, f, t, consts, single),
         lambda t: unroll_const_loops(t, consts, single),
         lambda t: materialise_generators(ix, f, t, keep),
+        lambda t: expand_maps(ix, f, t, keep),
         lambda t: inline_function(ix, f, keep=keep, fn=t),
         lambda t: desugar_match(t),
         lambda t: inline_expressions(ix, f, t, keep=keep),
